@@ -754,7 +754,7 @@ def run(chk, replay=None):
         for s in progs[0]["scripts"]:
             s["key"] = tuple(s["key"])
     else:
-        progs = gen_programs(chk, 396 if quick else 4500)
+        progs = gen_programs(chk, 396 if quick else 10000)
     with ThreadPoolExecutor(max_workers=8) as ex:
         results = list(ex.map(compile_one, [(wd, n, p) for n, p in enumerate(progs)]))
     files = []
